@@ -623,5 +623,24 @@ pub fn input_set_b(m: &Model, ty: &str, big: bool, thorough: bool, max_values: u
             }
         }
     }
+    // the largest values the size / count fields can express (arrays of 255 elements, payloads
+    // of 255 octets, ...): their encodings and their prefixes cut at every 16th octet, without
+    // the per-octet mutants (which the in-process Rust engine enumerates)
+    if max_array_len < 300 {
+        let vg = ValueGen { m, budget: Budget { max_values: 120, pairs: false, nested_alts: 2, max_array_len: 300 } };
+        for v in vg.values(ty).ok.iter() {
+            if let Ok(e) = m.encode(ty, v) {
+                if e.bytes.len() > 64 && e.bytes.len() <= 4096 {
+                    push(&e.bytes);
+                    let mut k = 16;
+                    while k < e.bytes.len() {
+                        push(&e.bytes[..k]);
+                        k += 16;
+                    }
+                    push(&e.bytes[..e.bytes.len() - 1]);
+                }
+            }
+        }
+    }
     out
 }
